@@ -20,11 +20,11 @@ def run(ctx):
     ctx.rule(RULE)
     ctx.trust("tm-db MemDB (root of every stack) is assumed to implement the KV specification; it is compared with the specification store on every line but not proved",
               "iterators are compared by their drained contents")
-    n = 150000 if ctx.thorough else 4000
+    n = 300000 if ctx.thorough else 4000
     ctx.stream("prefix", "c02", "Driver/C02.lean", n=n)
     if ctx.thorough:
         for s in range(3):
-            ctx.stream(f"prefix-s{s}", "c02", "Driver/C02.lean", n=100000, seed=ctx.seed * 1000 + 31 + s)
+            ctx.stream(f"prefix-s{s}", "c02", "Driver/C02.lean", n=200000, seed=ctx.seed * 1000 + 31 + s)
     else:
         ctx.stream("prefix-deep", "c02", "Driver/C02.lean", n=1500, seed=ctx.seed * 1000 + 7, args=["-depth", "4"])
 
